@@ -42,4 +42,18 @@ def handleCb (l : Line) : List Verdict :=
     pure (verdictsOf diffs viol)
   r.getD [Verdict.bad "cb"]
 
+/-- two overlapping callbacks presenting the SAME code: A with its own cookie, B with B's own cookie and state. The model: A redeems and gets a session; B's gate passes too,
+    so B sends the code with B's verifier - which the provider refuses - and gets no session -/
+def handleCbRace (l : Line) : List Verdict :=
+  let r : Option (List Verdict) := do
+    let order ← l.get? "order"
+    let asession ← l.bool? "asession"
+    let bsession ← l.bool? "bsession"
+    let callsb ← l.nat? "callsb"
+    let okb ← l.nat? "okb"
+    let diffs := cmp "A obtained a session" asession true ++ cmp "B obtained a session" bsession false ++ cmp "B redeemed with its own verifier" (decide (callsb ≥ 1)) true
+    pure (verdictsOf diffs
+      (if bsession && okb == 0 then [("C02.verifier_not_from_cookie", s!"{order}: browser B obtained a session although no redemption carrying the verifier bound in B's cookie succeeded ({callsb} such calls)")] else []))
+  r.getD [Verdict.bad "cbrace"]
+
 end Ww.Driver
